@@ -195,6 +195,8 @@ class Ctx:
                 v["scenario"] = sid
                 v["scen_text"] = byid.get(sid, "")
                 v["variant"] = variant
+                v["how"] = dict(driver=driver, spec=spec, wrapper=wrapper, env=env, one_per_process=one_per_process, dir=self.dir,
+                                post=("witnesses" if post is not None else None))
                 v["event"] = evs[v["n"] - 1] if 0 < v["n"] <= len(evs) else {}
                 if inject and sid in inject:
                     v["witness"] = inject[sid]
@@ -277,9 +279,20 @@ def finish(ctx, level, rule, extra_cov=None, assumptions=None):
         path = os.path.join(rdir, "%s.scen" % hid)
         with open(path, "w") as f:
             f.write(v.get("scen_text") or "")
+        how = dict(v.get("how") or {})
+        wdir = how.pop("dir", None)
+        # input files the scenario names (generated LP / MPS / basis files): kept next to the scenario so that the replay is self-contained
+        fdir = path + ".files"
+        shutil.rmtree(fdir, ignore_errors=True)
+        if wdir:
+            for tok in sorted(set(re.findall(r"[^\s]+", v.get("scen_text") or ""))):
+                src = os.path.join(wdir, tok)
+                if "/" not in tok and os.path.isfile(src) and os.path.getsize(src) < 8 << 20 and re.search(r"\.(lp|mps|bas|gz|bz2|txt|sol)$|^[A-Za-z0-9_.-]+$", tok):
+                    os.makedirs(fdir, exist_ok=True)
+                    shutil.copy(src, os.path.join(fdir, tok))
         with open(path + ".json", "w") as f:
             json.dump(dict(property=prop, n=v["n"], call=v["call"], why=v["why"], scenario=v.get("scenario"),
-                           variant=v.get("variant"), event=v.get("event"), witness=v.get("witness")), f, indent=1)
+                           variant=v.get("variant"), how=how, event=v.get("event"), witness=v.get("witness")), f, indent=1, default=str)
         lines.append("VIOLATION property=%s replay=%s" % (prop, path))
         lines.append("  at event %s (%s) of scenario %s: %s" % (v["n"], v["call"], v.get("scenario"), v["why"][:600]))
     # prune old replays
@@ -289,6 +302,7 @@ def finish(ctx, level, rule, extra_cov=None, assumptions=None):
             os.remove(f)
             if os.path.exists(f + ".json"):
                 os.remove(f + ".json")
+            shutil.rmtree(f + ".files", ignore_errors=True)
     states = sum(m["distinct"] for m in ctx.mc) + ctx.tlc_trace_states
     trans = sum(m["generated"] for m in ctx.mc) + ctx.events
     cov = dict(states=states, transitions=trans, traces_validated_against_impl=ctx.traces,
